@@ -34,6 +34,7 @@ theorem allowed_ok {K : Kind} {ops : List Op} (h : Allowed K ops) : ∀ op ∈ o
   | schema s => simp only at this; rw [← this.2]; exact VS_of_valid this.1
   | meter x => exact this
   | shards _ => trivial
+  | sync _ _ _ _ => trivial
   | hb _ _ _ => trivial
   | reconcileCount => trivial
   | answer _ _ => trivial
@@ -333,6 +334,42 @@ theorem c09_ready_down_iff (now : Int) (rest : List (Bool × Int)) (hup : specRe
     specReady ((false, now) :: rest) = false ↔ now > (failRunStart rest).getD now + serverHeartBeatTimeout := by
   rw [specReady_false, hup]; simp
 
+/-- after MORE than the time-out of consecutive failure the status is not ready, whatever it was before -/
+theorem c09_not_ready_after_timeout (now t0 : Int) (rest : List (Bool × Int))
+    (hrun : failRunStart ((false, now) :: rest) = some t0) (hlong : now > t0 + serverHeartBeatTimeout) :
+    specReady ((false, now) :: rest) = false := by
+  rw [failRunStart_false] at hrun
+  have : (failRunStart rest).getD now = t0 := Option.some.inj hrun
+  rw [specReady_false, this]
+  simp [hlong]
+
+/-- **a server-info sync that does not change the leader does not touch readiness** (nor the leader): it fails, or
+    publishes no endpoint for the cluster's shard, or re-publishes the known leader — the heartbeat status, and with
+    it the running time-out of a failing leader, is exactly what it was; only the shard count is taken over -/
+theorem c09_sync_same_leader_keeps_status (st : State) (fail : Bool) (n : Nat) (leader : Option Nat) (now : Int)
+    (h : fail = true ∨ leader = none ∨ leader = some st.leader) :
+    ∃ st', step st (.sync fail n leader now) = .ok st' ∧ st'.hb = st.hb ∧ st'.leader = st.leader ∧
+      st'.cache = st.cache ∧ (fail = true → st' = st) ∧ (fail = false → st'.shardCount = n) := by
+  cases fail with
+  | true => exact ⟨st, rfl, rfl, rfl, rfl, fun _ => rfl, fun h => (by cases h)⟩
+  | false =>
+    rcases h with h | h | h
+    · cases h
+    · subst h; exact ⟨_, rfl, rfl, rfl, rfl, fun h => (by cases h), fun _ => rfl⟩
+    · subst h
+      refine ⟨{ st with shardCount := n }, by simp [step], rfl, rfl, rfl, fun h => (by cases h), fun _ => rfl⟩
+
+/-- … so the judge's heartbeat history — and every theorem above about it — ignores such syncs, while a CHANGED
+    leader is a success at that time (`clientSets.sync` calls `setLeaderStatus(shard, leader, true)` only then) -/
+theorem c09_sync_history (m : Mon) (fail : Bool) (n : Nat) (leader : Option Nat) (now : Int) (o : Obs) :
+    (m.next (.sync fail n leader now) o).hist =
+      (match leader with
+       | some l => if fail = false ∧ m.leader ≠ l then (true, now) :: m.hist else m.hist
+       | none => m.hist) := by
+  cases fail <;> cases leader <;> simp [Mon.next, leaderChange]
+  rename_i l
+  by_cases h : m.leader = l <;> simp [h]
+
 /-- `failRunStart` is the time of the oldest heartbeat of the maximal run of failures at the head of the history:
     every heartbeat since then failed -/
 theorem failRun_all_failed : ∀ (h : List (Bool × Int)) (t0 : Int), failRunStart h = some t0 →
@@ -441,6 +478,23 @@ example : (run exCfg exOpsTB).1.map (fun o => (o.choice, o.lim)) =
     [ (.loc, some (.tb 10 20)), (.loc, some (.tb 10 20)), (.loc, some (.tb 10 20)),
       (.remote, some (.tb 0 3)), (.remote, some (.tb 100 200)), (.remote, some (.tb 100 200)),
       (.remote, some (.tb 100 200)), (.remote, some (.tb 0 0)) ] := by decide
+
+/-- partial failure: the leader (1) fails its heartbeats for longer than the time-out while the server info keeps
+    publishing it: local limiter again; a new leader (2) is published: ready at once -/
+def exOpsSync : List Op :=
+  [ .schema exSchema, .sync false 1 (some 1) 0, .reconcileCount,
+    .hb false 1 false, .sync false 1 (some 1) 2, .hb false 3 false, .sync false 1 (some 1) (serverHeartBeatTimeout + 1),
+    .hb false (serverHeartBeatTimeout + 2) false, .sync false 1 (some 1) (serverHeartBeatTimeout + 3),
+    .sync true 0 none (serverHeartBeatTimeout + 4), .sync false 1 (some 2) (serverHeartBeatTimeout + 5) ]
+
+example : (run exCfg exOpsSync).1.map (fun o => (o.choice, o.ready, o.leader)) =
+    [ (.loc, false, 0), (.loc, true, 1), (.remote, true, 1), (.remote, true, 1), (.remote, true, 1), (.remote, true, 1),
+      (.remote, true, 1), (.loc, false, 1), (.loc, false, 1), (.loc, false, 1), (.remote, true, 2) ] := by decide
+
+/-- the judge rejects an implementation that stays ready because the sync re-marked the published leader ready -/
+example : (judgeAll exCfg exOpsSync ((run exCfg exOpsSync).1.mapIdx fun i o =>
+      if i = 7 then { o with ready := true, choice := .remote, lim := o.rlim } else o))[7]?
+    = some ["c09.ready-hysteresis", "c09.fallback-choice"] := by decide
 
 /-- the heartbeat hypotheses of the hysteresis theorems are satisfiable (whatever the regenerated time-out is): up on a
     success, still up after exactly the time-out of consecutive failure, down one nanosecond later -/
